@@ -185,11 +185,17 @@ Definition finish (p : params) (g : block) (pr : proc) : proc :=
 
 Definition observe (pr : proc) (w : N) : report := model_report (s_wallet (pr_sim pr)) w.
 
-(* where a restart is not covered by the C06 theorems: the fast-forward branch of Start (it is
-   treated separately, see CrashProofs.start_ff_on_chain), and a node reorganised back to its
-   bare genesis while the wallet is ahead of it *)
+(* the stored sync records are those of a prefix of the node's best chain (the node was not
+   reorganised below the wallet's tip) *)
+Definition on_chain (pr : proc) : Prop :=
+  exists c m, c <> [] /\ s_node (pr_sim pr) = c ++ m /\
+              synced (s_wallet (pr_sim pr)) = rev (map (fun b => (b_height b, b_id b)) c).
+
+(* the crash points covered by the C06 theorems: Start does not take its fast-forward branch, or
+   takes it with the stored tip still on the node's chain; and the node has not been reorganised
+   back to its bare genesis while the wallet is ahead of it *)
 Definition safe_point (g : block) (ff : Z) (pr : proc) : Prop :=
-  no_ready_wallet pr && (ff <? chain_height (s_node (pr_sim pr))) = false /\
+  (no_ready_wallet pr && (ff <? chain_height (s_node (pr_sim pr))) = false \/ (0 <= ff /\ on_chain pr)) /\
   (last (s_node (pr_sim pr)) g <> g \/ snd (tip (s_wallet (pr_sim pr))) = b_id g).
 
 Fixpoint crashes_safe (p : params) (tipfix : bool) (ff : Z) (g : block) (ks : list nat) (pr : proc) (h : list event) : Prop :=
@@ -260,3 +266,20 @@ Definition unfinished (l : list (N * wstat)) : list N :=
 
 (* worker(): the queue is rebuilt from the status records *)
 Definition treopen (t : tasks) : tasks := {| t_status := t_status t; t_queue := unfinished (t_status t) |}.
+
+(* fresh wallet ids: a wallet is created / restored once *)
+Definition tfresh (t : tasks) (e : tevent) : Prop :=
+  match e with
+  | TCreate w | TImport w => ~ In w (map fst (t_status t))
+  | _ => True
+  end.
+
+
+Definition trun (t : tasks) (es : list tevent) : tasks := fold_left tstep es t.
+
+Fixpoint tfresh_all (t : tasks) (es : list tevent) : Prop :=
+  match es with
+  | [] => True
+  | e :: r => tfresh t e /\ tfresh_all (tstep t e) r
+  end.
+
